@@ -28,7 +28,7 @@ ASSUMPTIONS = ['the object interface (Fitter.fit + keep) is the reference for re
                'filter_output may raise on a record with zero fits, but then must raise the same class on every channel']
 PROBES = ['zero_fit_record_reached_consumer', 'ineligible_line_skipped', 'short_line_ended_input', 'lines_after_terminator_ignored',
           'preexisting_output_replaced', 'restart_after_crash', 'restart_after_enospc', 'prompt_n_abort', 'channel_list', 'channel_obj',
-          'channel_path', 'nan_result_record', 'crash_inside_metadata', 'no_final_newline', 'prelude_epoch', 'channel_fresh', 'intruder_fit', 'manual_source_edited_in_place', 'manual_same_source_object_written_again']
+          'channel_path', 'nan_result_record', 'crash_inside_metadata', 'no_final_newline', 'prelude_epoch', 'channel_fresh', 'intruder_fit', 'manual_source_edited_in_place', 'manual_same_source_object_written_again', 'same_name_on_two_eligible_lines']
 
 
 def budgets(tier):
@@ -66,12 +66,17 @@ def generate(rng, tier, idx):
     if rng.random() < 0.03:
         # a grid with more models than any plausible internal block size (cube format keeps this cheap)
         w.update(format=2, n_models=rng.choice([1100, 2100]), n_wav=6, asc_per_file=None, mixed=None, zero_band=None, gz=False, subdir=0)
-        w['flux_unit'] = 'mJy' if w['flux_unit'] not in ('mJy', 'Jy') else w['flux_unit']
+        w['flux_unit'] = 'mJy' if w['flux_unit'] not in ('mJy', 'Jy', 'MJY', 'MJy', 'uJy') else w['flux_unit']
     nf = len(w['filters'])
     nsrc = rng.randint(1, 12) if rng.random() < 0.5 else rng.randint(1, 4)
     if rng.random() < (0.03 if tier == 'thorough' else 0.004):
         nsrc = rng.choice([101, 130])          # a long catalogue: anything that depends on the NUMBER of sources seen so far
     sources = [gen_source(rng, nf, 's%02d' % i) for i in range(nsrc)]
+    if nsrc > 1 and rng.random() < 0.3:
+        # a catalogue may list the same name on several lines (two epochs of one object): each LINE is a source
+        for _ in range(rng.randint(1, 3)):
+            i, j = sorted(rng.sample(range(nsrc), 2))
+            sources[j]['name'] = sources[i]['name']
     nd = [n_data_of(s['valid']) for s in sources]
     n_data_min = rng.randint(0, min(nf + 1, max(nd)))
     tail = {'final_newline': rng.random() < 0.75, 'terminator': rng.choice([None, None, '', '   ', 'a b']),
@@ -234,6 +239,8 @@ def _execute(sc, sim, out):
         out.discarded = 'no-eligible-source'
         return
     out.probe('ineligible_line_skipped', len(expected) - len(eligible))
+    if len(set(s_['name'] for s_ in eligible)) < len(eligible):
+        out.probe('same_name_on_two_eligible_lines')
     if sc['tail']['terminator'] is not None:
         out.probe('short_line_ended_input')
         out.probe('lines_after_terminator_ignored', len(sc['after_sources']))
